@@ -23,7 +23,7 @@ def prepare(ctx):
     """translate, build the Spec evaluator and the model, prove, build the harness. Returns False when
     nothing can be run. When only the model (or a generated table it imports) no longer compiles,
     the implementation is still compared with the Spec."""
-    ctx.translate(['Consts.v', 'AuthzTable.v'])
+    ctx.translate(['Consts.v', 'AuthzTable.v', 'ServerFlow.v'])
     spec_ok = ctx.build_models(SPEC_MODULES)
     STATE['model_ok'] = ctx.build_models(MODULES) if spec_ok else False
     ctx.prove()
